@@ -34,6 +34,10 @@ OPS = ["set", "getitem", "get", "del", "contains", "len", "list", "keys", "value
        "clear", "update", "setdefault", "eq_dict", "ne_dict"]
 
 
+TEXT_KEYS = ['e\u0301', '\u00e9', 'A\u030a', '\u00c5', '\u212b', 'a', ' a', 'A', 'ss', '\u00df', '1', '\uff11', 'a/b', 'a/./b', 'a\n',
+             'a\r\n', ' ', '\ufeffa', '\ufb01', 'fi']       # canonically / compatibility / case / blank equivalent, but different strings
+
+
 def gen_case(rng, tier, index):
     if index % 150 == 10:
         return {"special": "nan_key", "ops": []}
@@ -78,7 +82,8 @@ def gen_case(rng, tier, index):
         if restore_heavy and o == "set" and rng.random() < 0.6:
             ki = rng.randrange(min(cap, nkeys))  # re-stores of keys that tend to be present, many ties
         ops.append([o, ki, rng.randrange(1000), rng.randrange(1 << 16)])
-    return {"cap": cap, "nkeys": nkeys, "ops": ops, "exact": exact, "keys": "big" if index % 4 == 1 else "small"}
+    return {"cap": cap, "nkeys": nkeys, "ops": ops, "exact": exact, "keys": "text" if index % 8 == 6 else "big" if index % 4 == 1 else "small",
+            "thread_hops": index % 5 == 2}
 
 
 def shrinkable(case):
@@ -99,9 +104,29 @@ def view_budget(n):
     return 2000 + 200 * (n + 1) ** 2
 
 
+_HOP = [False]
+
+
 def _guard(desc, n, fn):
     try:
         with instr.budget(view_budget(n)):
+            if _HOP[0]:
+                # this operation is made by a short-lived thread of its own (strictly one after the other: a history spread over
+                # the threads of a pool of handlers)
+                import threading
+                box = []
+
+                def run():
+                    try:
+                        box.append(outcome(fn))
+                    except BaseException as e:      # noqa: B036 - re-raised in the caller
+                        box.append(e)
+                t = threading.Thread(target=run, name="vf:hop")
+                t.start()
+                t.join()
+                if isinstance(box[0], BaseException):
+                    raise box[0]
+                return box[0]
             return outcome(fn)
     except instr.StepBudgetExceeded:
         raise Violation("operation-does-not-end",
@@ -139,7 +164,7 @@ def internal_walk(c, m, res):
         res.count("internal_walk_skipped")
         return
     res.count("internal_walks")
-    if sorted(k for k, _, _ in items) != sorted(m.val) or set(d.keys()) != set(m.val) or len(d) != len(m.val):
+    if sorted((k for k, _, _ in items), key=repr) != sorted(m.val, key=repr) or set(d.keys()) != set(m.val) or len(d) != len(m.val):
         raise Violation("internal-disagreement", f"dict keys {list(d)!r} / list keys {[i[0] for i in items]!r} / "
                         f"reference keys {list(m.val)!r} disagree", {})
     for k, v, f in items:
@@ -162,8 +187,8 @@ def observe(c, m, desc, res):
     ln = len(c)
     if ln > m.cap or len(order) > m.cap:
         raise Violation("len-exceeds-max", f"after {desc}: {max(ln, len(order))} entries, max_size={m.cap}", {})
-    if sorted(order) != sorted(m.val):
-        raise Violation("content-mismatch", f"after {desc}: keys {order!r}, reference keys {sorted(m.val)!r}", {})
+    if sorted(order, key=repr) != sorted(m.val, key=repr):
+        raise Violation("content-mismatch", f"after {desc}: keys {order!r}, reference keys {sorted(m.val, key=repr)!r}", {})
     if ln != n:
         raise Violation("len-mismatch", f"after {desc}: len(cache)={ln}, reference has {n}", {})
     for x, y in zip(order, order[1:]):
@@ -294,6 +319,8 @@ def run_case(case, res):
     if case.get("keys") == "big":
         # ints beyond the small-int cache: equal keys are different objects
         keys = [10 ** 6 + i for i in range(case["nkeys"])]
+    elif case.get("keys") == "text":
+        keys = [TEXT_KEYS[i % len(TEXT_KEYS)] + ("" if i < len(TEXT_KEYS) else str(i)) for i in range(case["nkeys"])]
     # a second, independent cache lives next to the one under test (state shared between instances would show)
     comp = LFUCache(2)
     comp["companion-a"] = "x"
@@ -301,6 +328,7 @@ def run_case(case, res):
     c = LFUCache(cap)
     m = Model(cap)
     for step, (op, ki, v, aux) in enumerate(case["ops"]):
+        _HOP[0] = bool(case.get("thread_hops")) and step % 2 == 1       # every second operation by a thread of its own
         k = common.fresh(keys[ki % len(keys)])     # an equal key, not the identical object
         n = len(m.val)
         desc = f"{op}({k!r})"
@@ -329,7 +357,7 @@ def run_case(case, res):
                     raise Violation("iteration-raised", f"list(cache) raised {now[1]}", {})
                 gone = [x for x in before if x not in now[1]]
                 if k not in now[1] or len(gone) != 1 or len(now[1]) != n:
-                    raise Violation("wrong-victim", f"storing new key {k!r} into full cache {sorted(before)!r} left "
+                    raise Violation("wrong-victim", f"storing new key {k!r} into full cache {sorted(before, key=repr)!r} left "
                                     f"keys {now[1]!r}: exactly one old key must be evicted", {})
                 victim = gone[0]
                 others = [x for x in before if x != victim]
@@ -381,8 +409,8 @@ def run_case(case, res):
             pass
         elif op == "keys":
             got = _guard("keys()", n, lambda: list(c.keys()))
-            if got[0] != "ok" or sorted(got[1]) != sorted(m.val):
-                raise Violation("view-content-incomplete", f"list(keys()) -> {got}, reference keys {sorted(m.val)}", {})
+            if got[0] != "ok" or sorted(got[1], key=repr) != sorted(m.val, key=repr):
+                raise Violation("view-content-incomplete", f"list(keys()) -> {got}, reference keys {sorted(m.val, key=repr)}", {})
         elif op in ("values", "items"):
             got = _guard(f"{op}()", n, lambda: list(getattr(c, op)()))
             if got[0] != "ok":
